@@ -85,6 +85,9 @@ pub fn rel_to_cmp(r: Rel) -> Comparison {
         Rel::Eq => Comparison::Equal,
     }
 }
+/// suffix of the name of a row read back from a strict comparison (`<`, `>`): the exact oracle works on
+/// the closure, the structural comparisons see the difference
+pub const STRICT_MARK: &str = "\u{1}strict";
 pub fn cmp_to_rel(c: &Comparison) -> Option<Rel> {
     match c {
         Comparison::LessOrEqual => Some(Rel::Le),
@@ -108,7 +111,18 @@ impl LmSpec {
             m.add_variable(name, d.to_vt());
         }
         for r in &self.rows {
-            m.add_named_constraint(r.coef.clone(), rel_to_cmp(r.rel), r.rhs, &r.name);
+            // strict rows (only met when a compiled model is read back) carry a marker in their name
+            match r.name.strip_suffix(STRICT_MARK) {
+                Some(name) => {
+                    let cmp = match r.rel {
+                        Rel::Le => Comparison::Less,
+                        Rel::Ge => Comparison::Greater,
+                        Rel::Eq => Comparison::Equal,
+                    };
+                    m.add_named_constraint(r.coef.clone(), cmp, r.rhs, name)
+                }
+                None => m.add_named_constraint(r.coef.clone(), rel_to_cmp(r.rel), r.rhs, &r.name),
+            };
         }
         let ot = match self.sense {
             Sense::Min => OptimizationType::Min,
@@ -133,12 +147,12 @@ impl LmSpec {
         }
         let mut rows = vec![];
         for c in m.constraints() {
-            rows.push(Row {
-                coef: c.coefficients().clone(),
-                rel: cmp_to_rel(c.constraint_type())?,
-                rhs: c.rhs(),
-                name: c.name(),
-            });
+            let (rel, strict) = match c.constraint_type() {
+                Comparison::Less => (Rel::Le, true),
+                Comparison::Greater => (Rel::Ge, true),
+                other => (cmp_to_rel(other)?, false),
+            };
+            rows.push(Row { coef: c.coefficients().clone(), rel, rhs: c.rhs(), name: if strict { format!("{}{STRICT_MARK}", c.name()) } else { c.name() } });
         }
         let sense = match m.optimization_type() {
             OptimizationType::Min => Sense::Min,
